@@ -166,3 +166,13 @@ claim('C10', 'effect reachability over the resolved call graph from the parser e
       'desugarer, and (R2) that the AST equality through which layout-insensitivity is observed ignores positions (5 known findings: derived PartialEq over Location fields).',
       'That the layout-preserving rewrites of the property yield the same tree is behaviour of the lexer/parser and is not decided.',
       'DESIGN.md §3 C10')
+
+claim('C19', 'dominance rule in lower(); type-based scan for iteration over RandomState collections; scope rule for named lock guards at scheduling calls',
+      'Decides three necessary conditions of schedule-independence: thread diagnostics are collected only after the join, no randomly seeded hash order is iterated in '
+      'erg_common / erg_parser / erg_compiler, and no named lock guard is in scope across a yield / sleep / join (one reviewed exception).',
+      'Byte-identical bytecode across schedules (e.g. whether the process-global fresh-name counter reaches emitted names) is not decided.',
+      'DESIGN.md §3 C19')
+claim('C20', 'who-may-call rule on the resolved call graph + dominance rule in Context::get_mod_with_path',
+      'Decides that a module context is read from the shared cache only through get_mod_with_path and only after the analysis thread of that module was joined (or is not pending).',
+      'Termination, once-only analysis and resolution of import cycles depend on schedules and are not decided.',
+      'DESIGN.md §3 C20')
